@@ -831,4 +831,74 @@ theorem internalSpans_count (n : Nat) : 2 * (internalSpans (n : Int)).length = (
         simp only [Nat.add_one_sub_one]
         grind
 
+/-! ### applicability of a rule on a span: the number of matches bounds how often its loss can be taken -/
+
+theorem rat_sum_replicate (n : Nat) (v : Rat) : (List.replicate n v).sum = (n : Rat) * v := by
+  induction n with
+  | zero => simp [Rat.zero_mul]
+  | succ n ih =>
+    rw [List.replicate_succ, List.sum_cons, ih]
+    have : ((n + 1 : Nat) : Rat) = (n : Rat) + 1 := by simp [Rat.natCast_add]
+    rw [this]; grind
+
+theorem applicableList_one (s : List Char) (r : LossRule) :
+    applicableList s [r] = List.replicate (r.1.count s) r.2 := by
+  simp [applicableList]
+
+theorem applicableList_two (s : List Char) (r₁ r₂ : LossRule) :
+    applicableList s [r₁, r₂] = List.replicate (r₁.1.count s) r₁.2 ++ List.replicate (r₂.1.count s) r₂.2 := by
+  simp [applicableList]
+
+/-- a rule whose pattern does not match the span contributes nothing -/
+theorem applicableList_filter (s : List Char) (rules : List LossRule) :
+    applicableList s rules = applicableList s (rules.filter fun r => decide (0 < r.1.count s)) := by
+  induction rules with
+  | nil => rfl
+  | cons r rs ih =>
+    unfold applicableList at ih ⊢
+    rw [List.flatMap_cons, List.filter_cons]
+    by_cases h : 0 < r.1.count s
+    · simp only [h, decide_true, if_true, List.flatMap_cons, ih]
+    · have h0 : r.1.count s = 0 := by omega
+      simp only [h0, List.replicate_zero, List.nil_append, ih]
+      simp
+
+/-- one rule: its loss can be taken `i` times for every `1 ≤ i ≤ min(#matches, max(1, max_losses))` -/
+theorem getLosses_one_rule (s : List Char) (r : LossRule) (m : Int) (x : Rat) :
+    x ∈ getLosses s [r] m ↔
+      x = 0 ∨ ∃ i : Nat, 1 ≤ i ∧ i ≤ r.1.count s ∧ (i : Int) ≤ max 1 m ∧ x = (i : Rat) * r.2 := by
+  rw [mem_getLosses, applicableList_one]
+  constructor
+  · rintro (h | ⟨sub, hs, h1, hm, rfl⟩)
+    · exact Or.inl h
+    · obtain ⟨i, hi, rfl⟩ := List.sublist_replicate_iff.1 hs
+      rw [List.length_replicate] at h1 hm
+      exact Or.inr ⟨i, h1, hi, hm, rat_sum_replicate i r.2⟩
+  · rintro (h | ⟨i, h1, hi, hm, rfl⟩)
+    · exact Or.inl h
+    · exact Or.inr ⟨List.replicate i r.2, (List.replicate_sublist_replicate r.2).2 hi, by simpa using h1,
+        by simpa using hm, (rat_sum_replicate i r.2).symm⟩
+
+/-- two rules: `i` copies of the first and `j` of the second, each bounded by its number of matches on the span,
+`1 ≤ i + j ≤ max(1, max_losses)` -/
+theorem getLosses_two_rules (s : List Char) (r₁ r₂ : LossRule) (m : Int) (x : Rat) :
+    x ∈ getLosses s [r₁, r₂] m ↔
+      x = 0 ∨ ∃ i j : Nat, 1 ≤ i + j ∧ i ≤ r₁.1.count s ∧ j ≤ r₂.1.count s ∧ ((i + j : Nat) : Int) ≤ max 1 m ∧
+        x = (i : Rat) * r₁.2 + (j : Rat) * r₂.2 := by
+  rw [mem_getLosses, applicableList_two]
+  constructor
+  · rintro (h | ⟨sub, hs, h1, hm, rfl⟩)
+    · exact Or.inl h
+    · obtain ⟨l₁, l₂, rfl, hs1, hs2⟩ := List.sublist_append_iff.1 hs
+      obtain ⟨i, hi, rfl⟩ := List.sublist_replicate_iff.1 hs1
+      obtain ⟨j, hj, rfl⟩ := List.sublist_replicate_iff.1 hs2
+      simp only [List.length_append, List.length_replicate] at h1 hm
+      exact Or.inr ⟨i, j, h1, hi, hj, hm, by rw [rat_sum_append, rat_sum_replicate, rat_sum_replicate]⟩
+  · rintro (h | ⟨i, j, h1, hi, hj, hm, rfl⟩)
+    · exact Or.inl h
+    · refine Or.inr ⟨List.replicate i r₁.2 ++ List.replicate j r₂.2,
+        List.Sublist.append ((List.replicate_sublist_replicate _).2 hi) ((List.replicate_sublist_replicate _).2 hj),
+        by simpa using h1, by simpa using hm, ?_⟩
+      rw [rat_sum_append, rat_sum_replicate, rat_sum_replicate]
+
 end Fragment
